@@ -1,5 +1,6 @@
 #!/bin/bash
-# builds the instrumented libfiber objects + runtime + every thread-regime driver (drivers/thr_*.c) into $OUT
+# builds the instrumented libfiber objects + runtime + the thread-regime driver drivers/thr_$DRIVER.c
+# (all drivers/thr_*.c when DRIVER is unset) into $OUT
 set -e
 REPO=${REPO:-/repo}
 OUT=${OUT:-/verif/build/thread}
@@ -20,6 +21,7 @@ pids=()
 for src in $V/drivers/thr_*.c; do
   b=$(basename $src .c)
   [ "$b" = "thr_stubs" ] && continue
+  [ -n "$DRIVER" ] && [ "$b" != "thr_$DRIVER" ] && continue
   ( gcc $INST $DEFS $INC -Wall -Wno-unused-function -c $src -o $OUT/$b.o && \
     gcc -no-pie -o $OUT/${b#thr_} $OUT/$b.o $OUT/lib/*.o $OUT/vrt.o $OUT/thr_stubs.o -lpthread -ldl \
        -Wl,--wrap=free,--wrap=pthread_create,--wrap=pthread_join ) & pids+=($!)
